@@ -16,16 +16,17 @@ ASSUMPTIONS = [
     "samples with |value| < 1e-100 are flushed to exactly 0 before the call (non-zero |values| and differences stay >= 1e-116): "
     "the code multiplies neighbouring samples / successive differences and a product below 1e-308 underflows - an implicit "
     "precondition no ground motion violates (DESIGN C12.2, as C11)",
-    "switched peaks are asserted on non-constant series only: the function is built on the local-peak list, which C11 specifies "
-    "for non-constant series; constant series (any length >= 1) are checked for crossings only "
-    "(observed, not asserted: the all-zero series returns [0, 0])",
+    "switched peaks are not asserted on the all-zero series (no excursion, no turning point: the function is built on the "
+    "local-peak list, which C11 specifies for non-constant series only; observed, not asserted: it returns [0, 0]); non-zero "
+    "constant series are asserted (one excursion, reported at index 0); the tolerance clauses skip constant series for the "
+    "switched peaks; crossings are asserted on every series of length >= 1",
     "where the statement leaves a choice the check accepts every choice: an excursion that attains its largest |value| at several "
     "indices may report any of them, and a zero-valued first sample / final run may or may not be reported; the canonical "
     "reference (first index of the largest |value|, all zero-valued reported local peaks) is compared for equality only where no "
     "such freedom exists; the predicate must accept the canonical reference on every case, otherwise the oracle is broken "
     "(harness error, exit 2)",
     "tolerance clauses are metamorphic against the library's own zero-tolerance result, as the statement is worded; tol = f * |a "
-    "sample of the series| with f in {0.3, 1, 1.5} or f * (largest of the first peaks) with f > 1; no rounding is involved in "
+    "sample of the series| with f in {0.3, 1, 1.5} or f * (largest of the first 1-4 non-zero peaks) with f in {1, 1.25, 2, 8}; no rounding is involved in "
     "the comparison peak + tol*sign <= 0 (sign of a floating sum is exact), so there is no ambiguous band",
     "tol < 0 must be rejected by get_zero_crossings_array_indices (any exception accepted); get_switched_peak_array_indices "
     "documents a meaning for negative tol and is not called with one",
@@ -159,7 +160,7 @@ def _classify(ctx, case, a):
         ctx.cls("3+levels-excursion")
     if late:
         ctx.cls("max-not-first-peak")
-    if exc and exc[0][0] == 0 and len(exc) > 0:
+    if exc and exc[0][0] == 0:
         s, e, _sg = exc[0]
         m = max(abs(x) for x in v[s:e])
         if abs(v[0]) == m and e - s >= 2:
@@ -237,7 +238,7 @@ def _enum(tier, shard, nshards):
 @enum_clause(CLAUSES, "exhaustive", _enum,
              rule="every sequence over {-2..2} of length 1..8 (quick: 1..7) and over {-3..3} of length 1..6 (quick: 1..5), "
                   "488 280 + 137 256 series (quick 97 655 + 19 607); each with keep_adj_zeros in {False, True} for the crossings and "
-                  "(non-constant series) the switched peaks; non-trivial = some excursion's largest |value| is not at its first reported peak",
+                  "(all but the all-zero series) the switched peaks; non-trivial = some excursion's largest |value| is not at its first reported peak",
              oracle="reference model: crossings = {0} + zeros (first of each run unless keep_adj_zeros) + first sample after each strict "
                     "sign change (exact list equality); switched peaks: the statement's predicates (ascending, exactly one per excursion "
                     "at its largest |value|, others zero-valued turning points, consecutive ones never share a strict sign, global |max| "
@@ -251,7 +252,7 @@ def exhaustive(case, ctx):
     a, arg = series(case)
     _classify(ctx, case, a)
     _check_crossings(ctx, a, arg)
-    if not ref.is_constant(a):
+    if np.any(a != 0):
         _check_switched(ctx, a, arg)
 
 
@@ -273,7 +274,7 @@ def random(case, ctx):
     _classify(ctx, case, a)
     before = np.array(arg, dtype=float).copy()
     _check_crossings(ctx, a, arg, default_too=True)
-    if not ref.is_constant(a):
+    if np.any(a != 0):
         got = _check_switched(ctx, a, arg)
         via = _ints(ctx, ctx.lib(pc.get_switched_peak_indices, arg), "get_switched_peak_indices")
         ctx.check(via == got, "get_switched_peak_indices differs from the array function: %s vs %s" % (_sh(via), _sh(got)))
